@@ -251,4 +251,93 @@ example : IssuedAt (stateAt lifeCycleLog 3) (stateAt lifeCycleLog 4) "db0" "auto
 example : ∀ m, m ≤ lifeCycleLog.length → ((allRPs (stateAt lifeCycleLog m)).all fun rp => rp.mstVersions.all fun v => v.version < 65535) = true := by
   decide +kernel
 
+/-! ### all numeric ids are handed out in strictly increasing order -/
+
+/-- the six id kinds, as (ids in use, counter, "an id in use is below the counter": `<` for the
+post-incremented measurement counter, `≤` for the others) -/
+structure IdKind where
+  ids : Data → List Nat
+  counter : Data → Nat
+  strict : Bool
+
+def IdKind.below (k : IdKind) (id c : Nat) : Prop := if k.strict then id < c else id ≤ c
+def IdKind.fresh (k : IdKind) (id c : Nat) : Prop := if k.strict then c ≤ id else c < id
+
+def kSG : IdKind := ⟨sgIds, (·.maxShardGroupID), false⟩
+def kShard : IdKind := ⟨shardIds, (·.maxShardID), false⟩
+def kIG : IdKind := ⟨igIds, (·.maxIndexGroupID), false⟩
+def kIndex : IdKind := ⟨indexIds, (·.maxIndexID), false⟩
+def kMst : IdKind := ⟨mstIds, (·.maxMstID), true⟩
+def kNode : IdKind := ⟨nodeIds, (·.maxNodeID), false⟩
+
+def idKinds : List IdKind := [kSG, kShard, kIG, kIndex, kMst, kNode]
+
+theorem kind_bounded (k : IdKind) (hk : k ∈ idKinds) (log : List Cmd) (m : Nat) :
+    ∀ id ∈ k.ids (stateAt log m), k.below id (k.counter (stateAt log m)) := by
+  have hinv : Inv (stateAt log m) := inv_applyAll inv_init _
+  have hc := clauses_of_inv hinv
+  unfold countersBound at hc
+  simp only [Bool.and_eq_true, List.all_eq_true, decide_eq_true_eq] at hc
+  obtain ⟨⟨⟨⟨⟨h1, h2⟩, h3⟩, h4⟩, h5⟩, h6⟩ := hc.1
+  simp only [idKinds, List.mem_cons, List.mem_nil_iff, or_false] at hk
+  rcases hk with rfl | rfl | rfl | rfl | rfl | rfl <;> intro id hid <;> simp only [IdKind.below, kSG, kShard, kIG, kIndex, kMst, kNode] at *
+  · simpa using h1 id hid
+  · simpa using h2 id hid
+  · simpa using h3 id hid
+  · simpa using h4 id hid
+  · simpa using h5 id hid
+  · simpa using h6 id hid
+
+theorem kind_fresh (k : IdKind) (hk : k ∈ idKinds) (d : Data) (c : Cmd) :
+    ∀ id ∈ k.ids (apply d c).1, id ∈ k.ids d ∨ k.fresh id (k.counter d) := by
+  have h := ids_never_reused d c
+  simp only [idKinds, List.mem_cons, List.mem_nil_iff, or_false] at hk
+  rcases hk with rfl | rfl | rfl | rfl | rfl | rfl <;> intro id hid <;> simp only [IdKind.fresh, kSG, kShard, kIG, kIndex, kMst, kNode] at *
+  · simpa using h.1 id hid
+  · simpa using h.2.1 id hid
+  · simpa using h.2.2.1 id hid
+  · simpa using h.2.2.2.1 id hid
+  · simpa using h.2.2.2.2.1 id hid
+  · simpa using h.2.2.2.2.2 id hid
+
+theorem kind_counter_mono (k : IdKind) (hk : k ∈ idKinds) (log : List Cmd) (a b : Nat) (hab : a ≤ b) (hb : b ≤ log.length) :
+    k.counter (stateAt log a) ≤ k.counter (stateAt log b) := by
+  have h := ctr_le_stateAt log a b hab hb
+  unfold Ctr.le ctr at h
+  simp only [idKinds, List.mem_cons, List.mem_nil_iff, or_false] at hk
+  rcases hk with rfl | rfl | rfl | rfl | rfl | rfl <;> simp only [kSG, kShard, kIG, kIndex, kMst, kNode]
+  · exact h.1
+  · exact h.2.1
+  · exact h.2.2.1
+  · exact h.2.2.2.1
+  · exact h.2.2.2.2.1
+  · exact h.2.2.2.2.2
+
+/-- **T9** shard-group, shard, index-group, index, measurement and data-node ids are handed out
+in strictly increasing order over every command log: an id that appears as new at step `j` is
+larger than any id of its kind that appeared as new at an earlier step `i` — whether or not the
+earlier holder still exists. In particular no id is ever handed out twice. -/
+theorem ids_strictly_increasing (k : IdKind) (hk : k ∈ idKinds) (log : List Cmd) (i j : Nat) (hij : i < j) (hj : j < log.length)
+    (id₁ id₂ : Nat)
+    (h1 : id₁ ∈ k.ids (stateAt log (i + 1)) ∧ id₁ ∉ k.ids (stateAt log i))
+    (h2 : id₂ ∈ k.ids (stateAt log (j + 1)) ∧ id₂ ∉ k.ids (stateAt log j)) : id₁ < id₂ := by
+  have hb := kind_bounded k hk log (i + 1) id₁ h1.1
+  have hm := kind_counter_mono k hk log (i + 1) j (by omega) (by omega)
+  have hf := kind_fresh k hk (stateAt log j) log[j] id₂
+  rw [← stateAt_succ log j hj] at hf
+  rcases hf h2.1 with h | h
+  · exact absurd h h2.2
+  · unfold IdKind.below at hb
+    unfold IdKind.fresh at h
+    split at hb <;> simp_all <;> omega
+
+theorem ids_never_reissued (k : IdKind) (hk : k ∈ idKinds) (log : List Cmd) (i j : Nat) (hij : i < j) (hj : j < log.length) (id : Nat)
+    (h1 : id ∈ k.ids (stateAt log (i + 1)) ∧ id ∉ k.ids (stateAt log i))
+    (h2 : id ∈ k.ids (stateAt log (j + 1)) ∧ id ∉ k.ids (stateAt log j)) : False :=
+  Nat.lt_irrefl _ (ids_strictly_increasing k hk log i j hij hj id id h1 h2)
+
+/-- non-vacuity: the life-cycle log hands out measurement ids 0, 1, 2 at steps 3, 6, 9 -/
+example : (0 ∈ kMst.ids (stateAt lifeCycleLog 4) ∧ 0 ∉ kMst.ids (stateAt lifeCycleLog 3)) ∧
+    (1 ∈ kMst.ids (stateAt lifeCycleLog 7) ∧ 1 ∉ kMst.ids (stateAt lifeCycleLog 6)) := by decide +kernel
+
 end OG.C16
